@@ -1,4 +1,433 @@
+/-
+C06 — request bodies: media-type match, decoding, request-side rules.
+Property theorems only (model and spec: KinModel/Body.lean; helper lemmas: KinModel/Lemmas/C06.lean).
+-/
 import KinModel.Body
+import KinModel.Lemmas.C06
 namespace KinModel.Body
-theorem placeholder : True := trivial
+
+/-! ## (a) media-type selection -/
+
+/-- **C06(a).** The media type chosen by `Content.Get` is the first declared one in the documented precedence
+order: the exact header text, then the text without parameters, then `type/*`, then `*/*`; an empty header
+only matches `*/*`; a header without `/` never matches a wildcard. -/
+theorem contentGet_spec {α : Type} (c : List (Str × α)) (mime : Str) :
+    contentGet c mime = firstSome c (candidates mime) := by
+  unfold contentGet candidates
+  by_cases h : mime = []
+  · simp [h, firstSome]; cases lookup star c <;> rfl
+  · simp only [h, if_false]
+    cases h1 : lookup mime c with
+    | some v => cases majorType (base mime) <;> simp [firstSome, h1]
+    | none =>
+      cases h2 : lookup (base mime) c with
+      | some v => cases majorType (base mime) <;> simp [firstSome, h1, h2]
+      | none =>
+        cases h3 : majorType (base mime) with
+        | none => simp [firstSome, h1, h2]
+        | some t =>
+          cases h4 : lookup (t ++ slashStar) c with
+          | some v => simp [firstSome, h1, h2, h4]
+          | none => simp [firstSome, h1, h2, h4]; cases lookup star c <;> rfl
+
+/-- an entry declared under exactly the header text (parameters included) wins over every other entry -/
+theorem exact_wins {α : Type} (c : List (Str × α)) (mime : Str) (v : α) (hne : mime ≠ [])
+    (h : lookup mime c = some v) : contentGet c mime = some v := by
+  simp [contentGet, hne, h]
+
+/-- without an exact entry, the entry for the text before the first ';' is used -/
+theorem params_fall_back_to_base {α : Type} (c : List (Str × α)) (mime : Str) (v : α) (hne : mime ≠ [])
+    (h1 : lookup mime c = none) (h2 : lookup (base mime) c = some v) : contentGet c mime = some v := by
+  simp [contentGet, hne, h1, h2]
+
+/-- an empty Content-Type is only ever matched by `*/*` -/
+theorem empty_mime_only_star {α : Type} (c : List (Str × α)) : contentGet c [] = lookup star c := by
+  simp [contentGet]
+
+/-- a header text without '/' is never matched by a wildcard entry -/
+theorem no_slash_no_wildcard {α : Type} (c : List (Str × α)) (mime : Str) (hne : mime ≠ [])
+    (h1 : lookup mime c = none) (h2 : lookup (base mime) c = none) (h3 : majorType (base mime) = none) :
+    contentGet c mime = none := by
+  simp [contentGet, hne, h1, h2, h3]
+
+/-- nothing declared under any of the four candidate keys ⇒ the content type is undeclared -/
+theorem undeclared_iff {α : Type} (c : List (Str × α)) (mime : Str) :
+    contentGet c mime = none ↔ ∀ k ∈ candidates mime, lookup k c = none := by
+  rw [contentGet_spec]
+  generalize candidates mime = l
+  induction l with
+  | nil => simp [firstSome]
+  | cons k ks ih =>
+    simp only [firstSome, List.mem_cons, forall_eq_or_imp]
+    cases hk : lookup k c with
+    | none => simpa using ih
+    | some v => simp
+
+example : contentGet [("application/json".toList, 1), ("application/*".toList, 2), (star, 3)]
+    "application/json; charset=utf-8".toList = some 1 := by decide
+example : contentGet [("application/json; charset=utf-8".toList, 0), ("application/json".toList, 1)]
+    "application/json; charset=utf-8".toList = some 0 := by decide
+example : contentGet [("application/*".toList, 2), (star, 3)] "application/xml".toList = some 2 := by decide
+example : contentGet [("application/*".toList, 2), (star, 3)] "text/plain".toList = some 3 := by decide
+example : contentGet [("application/*".toList, 2), (star, 3)] "application".toList = (none : Option Nat) := by decide
+
+/-! ## (b) decision table of `ValidateRequestBody` -/
+
+section decision
+variable (reg : List (Str × DecK)) (rb : ReqBody) (ct : Str) (b : BodyIn) (exro : Bool)
+
+/-- a missing body is rejected exactly when the body is required -/
+theorem missing_iff : validateRequestBody reg rb ct b exro = .missing ↔ b.text = [] ∧ rb.required = true := by
+  unfold validateRequestBody
+  by_cases h : b.text = []
+  · cases rb.required <;> simp [h]
+  · simp only [h, if_false, false_and, iff_false]
+    split
+    · simp
+    · split
+      · simp
+      · split
+        · simp
+        · split <;> (try simp) ; split <;> simp
+
+/-- an empty body that is not required is accepted, whatever is declared and whatever the header says -/
+theorem empty_optional_ok (h : b.text = []) (hr : rb.required = false) :
+    validateRequestBody reg rb ct b exro = .ok := by
+  simp [validateRequestBody, h, hr]
+
+/-- a non-empty body whose content type is not declared (under none of the candidate keys) is rejected -/
+theorem undeclared_rejected (h : b.text ≠ []) (hc : rb.content ≠ []) (hn : contentGet rb.content ct = none) :
+    validateRequestBody reg rb ct b exro = .badCT := by
+  simp [validateRequestBody, h, hc, hn]
+
+/-- a selected media type without schema accepts every non-empty body -/
+theorem no_schema_accepts (h : b.text ≠ []) (hc : rb.content ≠ []) (mt : MediaType)
+    (hs : contentGet rb.content ct = some mt) (hn : mt.schema = none) :
+    validateRequestBody reg rb ct b exro = .ok := by
+  simp [validateRequestBody, h, hc, hs, hn]
+
+/-- otherwise the body is decoded with the decoder registered for the request's media type and the verdict is
+the request-side validation of the decoded value; a decoding error rejects -/
+theorem decoded_then_validated (h : b.text ≠ []) (hc : rb.content ≠ []) (mt : MediaType) (s : RS)
+    (hs : contentGet rb.content ct = some mt) (hn : mt.schema = some s) :
+    validateRequestBody reg rb ct b exro =
+      (match decodeBody reg ct s mt.encs b with
+       | .err => .decodeErr | .panic => .panic | .unmodelled => .unmodelled
+       | .val v => if visit exro s v then .ok else .schemaErr) := by
+  simp only [validateRequestBody, h, hc, hs, hn, if_false]
+  cases decodeBody reg ct s mt.encs b <;> rfl
+
+/-- the decoder is chosen by the header without parameters; a media type without registered decoder is a
+decoding error even when a wildcard entry declares it -/
+theorem unregistered_type_rejected (s : RS) (encs : List (Str × Enc)) (h : lookup (base ct) reg = none) :
+    decodeBody reg ct s encs b = .err := by
+  simp [decodeBody, h]
+
+end decision
+
+/-! ## (c) request-side reading of schemas -/
+
+/- Full-strength statement (does NOT hold of the code, see `readOnlyNull_witness`):
+     theorem visit_asreq_iff (exro) (s) (v) : visit exro s v = true ↔ SatReq exro s v
+   What is proved: the same statement outside the exclusion class `roNull` (a readOnly property sent as null). -/
+
+/-- **C06(c).** Outside the class `ReadOnlyNull`, the request-side validator accepts a value exactly when the
+value satisfies the schema read as a request: types, nullable, minLength, maximum, items, properties,
+additionalProperties, required — where a readOnly property need not be present even if required and must be
+absent unless read-only validation is excluded, and writeOnly plays no role. For every schema of the
+fragment, every value, both settings of the option; no bound on sizes. -/
+theorem visit_asreq_iff_partial (exro : Bool) :
+    ∀ (s : RS) (v : V), roNull exro s v = false → (visit exro s v = true ↔ SatReq exro s v) := by
+  have key := visit.mutual_induct
+    (motive_1 := fun s v => roNull exro s v = false → (visit exro s v = true ↔ SatReq exro s v))
+    (motive_2 := fun s kvs => roNullFields exro s kvs = false → (visitFields exro s kvs = true ↔ SatFields exro s kvs))
+    (motive_3 := fun it xs => roNullItems exro it xs = false → (visitItems exro it xs = true ↔ SatItems exro it xs))
+  refine (key ?null ?bool ?int ?half ?str ?arr ?obj ?inil ?icons ?fnil ?fcons).1
+  case null => intro s _; simp [visit, SatReq]
+  case bool =>
+    intro s b _
+    rw [visit, SatReq]
+    cases he : isEmptyLeaf s with
+    | true => have e := emptyLeaf_of s he; simp [e.ty]
+    | false => simp [permits_iff]
+  case int =>
+    intro s n _
+    rw [visit, SatReq]
+    cases he : isEmptyLeaf s with
+    | true => have e := emptyLeaf_of s he; simp [e.ty, e.max]
+    | false =>
+      simp only [Bool.false_or, Bool.and_eq_true]
+      apply and_congr
+      · cases s.ty with
+        | none => simp [numTypeOK, permits]
+        | some t => cases t <;> simp [numTypeOK, permits]
+      · cases s.max with
+        | none => simp [maxOK]
+        | some m => simp [maxOK]
+  case half =>
+    intro s n _
+    rw [visit, SatReq]
+    cases he : isEmptyLeaf s with
+    | true => have e := emptyLeaf_of s he; simp [e.ty, e.max]
+    | false =>
+      simp only [Bool.false_or, Bool.and_eq_true]
+      apply and_congr
+      · cases s.ty with
+        | none => simp [numTypeOK, permits]
+        | some t => cases t <;> simp [numTypeOK, permits]
+      · cases s.max with
+        | none => simp [maxOK]
+        | some m => simp [maxOK]
+  case str =>
+    intro s t _
+    rw [visit, SatReq]
+    cases he : isEmptyLeaf s with
+    | true => have e := emptyLeaf_of s he; simp [e.ty, e.minLen]
+    | false =>
+      simp only [Bool.false_or, Bool.and_eq_true, permits_iff, Bool.or_eq_true, beq_iff_eq, decide_eq_true_eq]
+      apply and_congr Iff.rfl
+      constructor
+      · rintro (h | h)
+        · omega
+        · exact h
+      · intro h; exact Or.inr h
+  case arr =>
+    intro s xs ih hro
+    rw [visit, SatReq]
+    rw [roNull] at hro
+    cases he : isEmptyLeaf s with
+    | true => have e := emptyLeaf_of s he; simp [e.ty, e.items]
+    | false =>
+      simp only [Bool.false_or, Bool.and_eq_true, permits_iff]
+      apply and_congr Iff.rfl
+      cases hi : s.items with
+      | none => simp
+      | some it =>
+        simp only [hi] at hro
+        simp only [Option.some.injEq, forall_eq']
+        exact ih it hro
+  case obj =>
+    intro s kvs ih hro
+    rw [visit, SatReq]
+    rw [roNull] at hro
+    cases he : isEmptyLeaf s with
+    | true =>
+      have e := emptyLeaf_of s he
+      have hf : SatFields exro s kvs := satFields_of_emptyLeaf exro s e kvs
+      simp [e.ty, e.required, e.props, lookup, isRO, hf]
+    | false =>
+      simp only [Bool.false_or, Bool.and_eq_true, permits_iff, roLoopOK_iff exro s kvs hro, requiredOK_iff, ih hro]
+      constructor
+      · rintro ⟨⟨⟨h1, h2⟩, h3⟩, h4⟩; exact ⟨h1, h3, h4, h2⟩
+      · rintro ⟨h1, h3, h4, h2⟩; exact ⟨⟨⟨h1, h2⟩, h3⟩, h4⟩
+  case inil => intro it _; simp [visitItems, SatItems]
+  case icons =>
+    intro it v r ih1 ih2 hro
+    rw [roNullItems] at hro
+    simp only [Bool.or_eq_false_iff] at hro
+    rw [visitItems, SatItems, Bool.and_eq_true, ih1 hro.1, ih2 hro.2]
+  case fnil => intro s _; simp [visitFields, SatFields]
+  case fcons =>
+    intro s k v r ih1 ih2 hro
+    rw [roNullFields] at hro
+    simp only [Bool.or_eq_false_iff] at hro
+    rw [visitFields, SatFields, Bool.and_eq_true, ih2 hro.2]
+    apply and_congr _ Iff.rfl
+    cases hl : lookup k s.props with
+    | none => simp
+    | some p =>
+      simp only [hl, Bool.or_eq_false_iff] at hro
+      exact ih1 p hro.1.2
+
+/-! ## (d) decoders -/
+
+/-- **C06(d), urlencoded.** Outside the classes `FormFieldUnparsable` and `FormNullForMissing` (and for
+well-formed per-property encodings and a schema the decoder supports) the object built by
+`UrlencodedBodyDecoder` is exactly the object the form fields encode under the declared types and
+serialization methods (explode / form, spaceDelimited, pipeDelimited). -/
+theorem decodeForm_eq_spec_partial (fields : List (Str × List Str)) (encs : List (Str × Enc)) (props : List (Str × RS))
+    (hu : formUnparsable fields encs props = false) (hn : formNullStored fields encs props = false)
+    (hwf : encsWF encs props = true) (hpre : formPre props = .ok) :
+    specFormProps fields encs props = some (decodeFormProps fields encs props) :=
+  formProps_agree fields encs props hu hn hwf hpre
+
+/-- inside `FormFieldUnparsable` the decoder really differs from what the fields encode: `a=x` for an integer
+property encodes nothing, the decoder answers the empty object (finding #20 / F-C06-1) -/
+theorem formUnparsable_witness :
+    let props := [(['a'], RS.mk (some .integer) false false false 0 none [] [] none none)]
+    let fields := [(['a'], [['x']])]
+    formUnparsable fields [] props = true ∧ (specFormProps fields [] props).isNone = true ∧
+    (decodeFormProps fields [] props).isEmpty = true := by decide
+
+/-- inside `FormNullForMissing`: the form `b=1` against optional properties `a` (string) and `b` (integer)
+encodes the object with `b` only; the decoder stores `a: null`, and the validator then rejects the body
+(F-C06-3) -/
+theorem formNullStored_witness :
+    let pa := RS.mk (some .string) false false false 0 none [] [] none none
+    let pb := RS.mk (some .integer) false false false 0 none [] [] none none
+    let props := [(['a'], pa), (['b'], pb)]
+    let s := RS.mk (some .object) false false false 0 none props [] none none
+    let fields := [(['b'], [['1']])]
+    formNullStored fields [] props = true ∧
+    (match specFormProps fields [] props with | some o => satReqB false s (.obj o) | none => false) = true ∧
+    visit false s (.obj (decodeFormProps fields [] props)) = false := by decide
+
+/-- multipart: properties without a part are absent from the object (not null) -/
+theorem assemble_absent (vals : List (Str × V)) (props : List (Str × RS)) (k : Str)
+    (h : valuesOf k vals = []) : lookup k (assemble vals props) = none := by
+  induction props with
+  | nil => simp [assemble, lookup]
+  | cons x r ih =>
+    obtain ⟨k', p'⟩ := x
+    unfold assemble
+    by_cases hk : k = k'
+    · subst hk; simp only [h]; exact ih
+    · cases hv : valuesOf k' vals with
+      | nil => simp only; exact ih
+      | cons w ws => simp only [lookup, hk, if_false]; exact ih
+
+/-- multipart, second loop: a declared property gets all its parts when it is an array, else the first -/
+theorem assemble_lookup (vals : List (Str × V)) (props : List (Str × RS)) (k : Str) (p : RS)
+    (h : lookup k props = some p) :
+    lookup k (assemble vals props) =
+      (match valuesOf k vals with
+       | [] => none
+       | v :: vs => some (if tyIs p.ty .array then .arr (v :: vs) else v)) := by
+  induction props with
+  | nil => simp [lookup] at h
+  | cons x r ih =>
+    obtain ⟨k', p'⟩ := x
+    unfold lookup at h
+    by_cases hk : k = k'
+    · subst hk
+      simp only [if_true, Option.some.injEq] at h
+      subst h
+      unfold assemble
+      cases hv : valuesOf k vals with
+      | nil => simp only; exact assemble_absent vals r k hv
+      | cons v vs => simp [lookup]
+    · simp only [hk, if_false] at h
+      unfold assemble
+      cases hv : valuesOf k' vals with
+      | nil => simp only; exact ih h
+      | cons w ws => simp only [lookup, hk, if_false]; exact ih h
+
+/-- JSON decoder: the decoded value is what `encoding/json` makes of the *whole* text; text that is not
+exactly one JSON value (trailing data, finding #36 — now fixed) is a decoding error -/
+theorem json_decoder (text : Str) (j : Option V) :
+    decodeSimple .json text j = (match j with | some v => .val v | none => .err) := rfl
+
+/-- text/plain and application/octet-stream: the body text itself, as a string -/
+theorem plain_decoder (text : Str) (j : Option V) :
+    decodeSimple .plain text j = .val (.str text) ∧ decodeSimple .file text j = .val (.str text) := ⟨rfl, rfl⟩
+
+/-! ## the property as a whole -/
+
+/-- model decoder vs the value the body encodes, for the selected media type -/
+theorem decode_agrees (reg : List (Str × DecK)) (rb : ReqBody) (ct : Str) (b : BodyIn) (mt : MediaType) (s : RS)
+    (h : b.text ≠ []) (hc : rb.content ≠ []) (hs : contentGet rb.content ct = some mt) (hn : mt.schema = some s)
+    (h1 : exclFormUnparsable reg rb ct b = false) (h2 : exclFormNull reg rb ct b = false)
+    (h3 : formEncsWF reg rb ct b = true) :
+    (∀ v, decodeBody reg ct s mt.encs b = .val v → specDecode reg ct s mt.encs b = some v) ∧
+    (decodeBody reg ct s mt.encs b = .err → specDecode reg ct s mt.encs b = none) := by
+  unfold decodeBody specDecode
+  cases hreg : lookup (base ct) reg with
+  | none => simp
+  | some k =>
+    cases k with
+    | json => cases hj : b.json <;> simp [decodeSimple, hj]
+    | plain => simp [decodeSimple]
+    | file => simp [decodeSimple]
+    | yaml => simp [decodeSimple]
+    | csv => simp [decodeSimple]
+    | multipart => cases decodeMultipart reg s b.parts <;> simp
+    | urlencoded =>
+      simp only
+      unfold decodeForm
+      cases hty : tyIs s.ty .object with
+      | false => simp
+      | true =>
+        simp only [Bool.not_true, Bool.false_eq_true, if_false, Bool.true_and]
+        cases hpre : formPre s.props with
+        | err => simp
+        | panic => simp
+        | ok =>
+          cases hf : b.form with
+          | none => simp
+          | some fields =>
+            have hrun : formRun reg rb ct b = some (s, mt.encs, fields) := by
+              unfold formRun
+              have hc' : rb.content.isEmpty = false := by
+                cases hcc : rb.content with
+                | nil => exact absurd hcc hc
+                | cons _ _ => rfl
+              simp [h, hc', hs, hn, hreg, hf, hty, hpre]
+            simp only [exclFormUnparsable, hrun] at h1
+            simp only [exclFormNull, hrun] at h2
+            simp only [formEncsWF, hrun] at h3
+            have := formProps_agree fields mt.encs s.props h1 h2 h3 hpre
+            simp [this]
+
+/- Full-strength statement (does NOT hold of the code, see the three witnesses):
+     theorem accept_iff : (validateRequestBody reg rb ct b exro).isOk = true ↔ Accept reg rb ct b exro  -/
+
+/-- **C06, main theorem.** Outside the three exclusion classes, request-body validation accepts exactly when
+the property says so: an empty body iff not required; otherwise the media type is the first declared one in
+the precedence order of the header text, an undeclared type is rejected, an entry without schema accepts, and
+else the value the body encodes under the decoder registered for the header's media type must exist and
+satisfy the entry's schema read as a request. For every declaration, header text, body, option value and
+every decoder registry; hypotheses: the case is inside the model (`hmod`: no YAML/CSV/nested-form decoder,
+no array property without `items` in a form schema) and form encodings are well-formed (`hwf`). -/
+theorem accept_iff_partial (reg : List (Str × DecK)) (rb : ReqBody) (ct : Str) (b : BodyIn) (exro : Bool)
+    (hmod : validateRequestBody reg rb ct b exro ≠ .panic ∧ validateRequestBody reg rb ct b exro ≠ .unmodelled)
+    (hwf : formEncsWF reg rb ct b = true)
+    (h1 : exclFormUnparsable reg rb ct b = false) (h2 : exclFormNull reg rb ct b = false)
+    (h3 : exclReadOnlyNull reg rb ct b exro = false) :
+    (validateRequestBody reg rb ct b exro).isOk = true ↔ Accept reg rb ct b exro := by
+  unfold Accept
+  by_cases ht : b.text = []
+  · cases hr : rb.required <;> simp [validateRequestBody, ht, hr, Outcome.isOk]
+  · by_cases hc : rb.content = []
+    · simp [validateRequestBody, ht, hc, Outcome.isOk]
+    · rw [← contentGet_spec]
+      cases hs : contentGet rb.content ct with
+      | none => simp [validateRequestBody, ht, hc, hs, Outcome.isOk]
+      | some mt =>
+        cases hn : mt.schema with
+        | none => simp [validateRequestBody, ht, hc, hs, hn, Outcome.isOk]
+        | some s =>
+          have hd := decode_agrees reg rb ct b mt s ht hc hs hn h1 h2 hwf
+          have hout := decoded_then_validated reg rb ct b exro ht hc mt s hs hn
+          rw [hout] at hmod ⊢
+          cases hdec : decodeBody reg ct s mt.encs b with
+          | err =>
+            have := hd.2 hdec
+            simp [Outcome.isOk, ht, hc, hn, this]
+          | panic => simp [hdec] at hmod
+          | unmodelled => simp [hdec] at hmod
+          | val v =>
+            have hsv := hd.1 v hdec
+            have hro : roNull exro s v = false := by
+              have hc' : rb.content.isEmpty = false := by
+                cases hcc : rb.content with
+                | nil => exact absurd hcc hc
+                | cons _ _ => rfl
+              simpa [exclReadOnlyNull, decodedValue, ht, hc', hs, hn, hdec] using h3
+            have hv := visit_asreq_iff_partial exro s v hro
+            constructor
+            · intro hok
+              refine Or.inr ⟨ht, Or.inr ⟨mt, rfl, Or.inr ⟨s, v, hn, hsv, ?_⟩⟩⟩
+              cases hvis : visit exro s v with
+              | true => exact hv.mp hvis
+              | false => simp [hvis, Outcome.isOk] at hok
+            · rintro (⟨h0, _⟩ | ⟨_, h0 | ⟨mt', hmt', hsch | ⟨s', v', hs', hv', hsat⟩⟩⟩)
+              · exact absurd h0 ht
+              · exact absurd h0 hc
+              · cases hmt'; rw [hn] at hsch; cases hsch
+              · cases hmt'
+                rw [hn] at hs'; cases hs'
+                rw [hsv] at hv'; cases hv'
+                have := hv.mpr hsat
+                simp [this, Outcome.isOk]
+
 end KinModel.Body
